@@ -218,6 +218,22 @@ def run(tier):
         for kind, what in r["viol"]:
             if kind in ("concat-release", "concat-crash"):
                 ck.violation("C13:loaded-tables:%s" % kind, "scanner with tables loaded from a concatenated file (%s %s): %s" % (job[0], job[1], what))
+    # loaded tables whose largest entry sits right at the limit of a serialized element width (127/128): an entry stored one size too
+    # narrow loads back negative and sends the match loop in front of the heap tables (round-4 seed C13-r4m3)
+    nb = 0
+    for job, r in pmap(c15.scenario, c15.boundary_jobs(tier == "quick"), check=ck):
+        if "worker_exception" in r:
+            ck.broken.append("tables worker failed: %s" % r["worker_exception"])
+            continue
+        if "build_error" in r:
+            ck.notes.append("loaded-tables scenario %s not built: %s" % (job, str(r["build_error"])[:200]))
+            continue
+        nb += r["counts"].get("scans", 0)
+        for kind, what in r["viol"]:
+            if kind in ("crash", "release"):
+                ck.violation("C13:loaded-tables:width-boundary:%s" % kind, "scanner with loaded tables (%s %s): %s" % (job[0], job[1], what[-400:]))
+    ck.cov["loaded_table_boundary_scans"] = nb
+    ck.guard(nb > 100, "loaded-table width boundary hardly exercised: %d" % nb)
     ck.cov["loaded_table_release_checks"] = released
     ck.guard(released > 50, "loaded-table release hardly exercised: %d" % released)
     ck.cov.update(evaluations=tot["executions"], distinct_nontrivial=tot["nontrivial"], scenarios=ran, ledger_checks=tot["ledger_checks"],
